@@ -255,23 +255,31 @@ fn check_base(acc: &mut Stats, name: &str, full: &Program) {
 
 /// surface templates with annotation sites written as `{{annotated||erased}}`: material that follows a site on the
 /// same line (one-line functions and branches with `<!>` / `<=>`, strings that span lines, comments, non-ASCII)
-const TEXT_TEMPLATES: &[(&str, &str)] = &[
+const TEXT_TEMPLATES: &[(&str, &str, &[(&str, &str)])] = &[
     (
         "one-line-functions-and-branches",
         "print: fn *X -> void : external\nf :: fn a{{: int||}}, b{{: str||}} do <!> end\ng :: fn a{{: int||}} do a <=> 1 end\nh :: fn a{{: int||}}, b{{: int||}} -> a + b end\nstart :: fn do\n    x{{: int = || := }}(if false do <!> else 1 end)\n    y{{: int : || :: }}h(x, 2)\n    g(1)\n    if y < 0 do f(1, \"s\") end\n    print(x + y)\nend\n",
+        &[],
     ),
     (
         "sites-before-multi-line-and-non-ascii-text",
         "print: fn *X -> void : external\nk{{: str : || :: }}\"é\nü\" // ü\nstart :: fn do\n    s{{: str = || := }}\"a\nb\" + k\n    t{{: (int, str) : || :: }}(1, \"ö\") // c\n    if t[0] > 5 do <!> end\n    w :: fn q{{: int||}} -> q + 1 end\n    print(s)\n    print(w(t[0]))\n    if s == \"\" do <!> end\nend\n",
+        &[],
     ),
     (
         "sites-in-nested-one-line-closures",
         "print: fn *X -> void : external\nstart :: fn do\n    mk :: fn a{{: int||}} -> fn b{{: int||}} -> fn c{{: int||}} do if a + b + c < 0 do <!> end end end end\n    mk(1)(2)(3)\n    z{{: bool = || := }}(1 <=> 1)\n    print(z)\nend\n",
+        &[],
+    ),
+    (
+        "types-qualified-by-one-and-two-namespaces",
+        "use geometry\nuse geometry as geo\nfrom geometry use Size\nprint: fn *X -> void : external\ngp{{: geometry.shapes.Point : || :: }}geometry.origin()\nstart :: fn do\n    p{{: geometry.shapes.Point = || := }}geometry.origin()\n    q{{: geometry.Size = || := }}geometry.unit()\n    r{{: geo.shapes.Point : || :: }}geo.origin()\n    t{{: Size : || :: }}geometry.unit()\n    w :: fn a{{: geometry.shapes.Point||}}, b{{: geo.Size||}} -> a.x + b.w end\n    print(p.x + q.w + r.y + t.w + w(p, q) + gp.x)\nend\n",
+        &[("/p/geometry.sy", "use shapes\nSize :: blob { w: int }\norigin :: fn -> shapes.Point\n    shapes.Point { x: 1, y: 2 }\nend\nunit :: fn -> Size\n    Size { w: 3 }\nend\n"), ("/p/shapes.sy", "Point :: blob { x: int, y: int }\n")],
     ),
 ];
 
 fn check_text_templates(acc: &mut Stats) {
-    for (name, tpl) in TEXT_TEMPLATES {
+    for (name, tpl, extra) in TEXT_TEMPLATES {
         // split into literal pieces and sites
         let mut pieces: Vec<(String, Option<(String, String)>)> = Vec::new();
         let mut rest = *tpl;
@@ -297,7 +305,14 @@ fn check_text_templates(acc: &mut Stats) {
             out
         };
         let erased_text = render(0);
-        let ref_bytes = match compile_src(&erased_text) {
+        let with_extra = |text: &str| -> Files {
+            let mut f = one_file(text);
+            for (p, t) in extra.iter() {
+                f.insert(p.to_string(), t.to_string());
+            }
+            f
+        };
+        let ref_bytes = match compile(&with_extra(&erased_text), MAIN, true) {
             Outcome::Ok(b) => b,
             other => {
                 eprintln!("MACHINERY: C08 text template {} does not compile un-annotated: {}", name, other.short());
@@ -309,7 +324,7 @@ fn check_text_templates(acc: &mut Stats) {
         for mask in 1..(1u32 << nsites) {
             let text = render(mask);
             acc.evaluations += 1;
-            let fail = match compile_src(&text) {
+            let fail = match compile(&with_extra(&text), MAIN, true) {
                 Outcome::Ok(b) if b == ref_bytes => None,
                 Outcome::Ok(_) => Some(("annotation-changes-lua".to_string(), "the emitted Lua differs from that of the un-annotated program".to_string())),
                 Outcome::Err { errs, .. } => Some(("annotated-variant-rejected".to_string(), errs.first().map(|e| e.dbg.clone()).unwrap_or_default())),
@@ -320,7 +335,9 @@ fn check_text_templates(acc: &mut Stats) {
                 Some((sig, detail)) => {
                     acc.outcome(&sig);
                     let mut files = serde_json::Map::new();
-                    files.insert(MAIN.to_string(), json!(text));
+                    for (k, v) in with_extra(&text) {
+                        files.insert(k, json!(v));
+                    }
                     acc.fail(Failure { sig, preds: vec![format!("base:text-template:{}", name)], detail: format!("annotated variant (mask {:b} of {} sites) of text template {}:\n{}\n{}\nun-annotated program:\n{}", mask, nsites, name, text, detail, erased_text), case: json!({"engine": "c08", "files": files, "erased": erased_text}), size: text.len() });
                 }
             }
@@ -417,7 +434,7 @@ pub fn run(run: &mut Run) {
         check_text_templates(&mut acc);
         run.stats.merge(acc);
     }
-    run.rule = "base programs: for every type (int, float, bool, str, tuple, blob, enum, list) and every expression of that type with at most n operator nodes, a program with annotation sites on a global constant, a global variable, two parameters, a return type, a local in a function, two locals in start (thorough: also a closure's parameter and return type); every subset of the 8 (10) sites is compiled; plus three surface templates in which one-line functions and branches with `<!>` / `<=>`, strings spanning lines, comments and non-ASCII text follow annotation sites on the same line (all subsets of their 7 / 4 / 4 sites); non-trivial = base accepted; distinct by base text".into();
+    run.rule = "base programs: for every type (int, float, bool, str, tuple, blob, enum, list) and every expression of that type with at most n operator nodes, a program with annotation sites on a global constant, a global variable, two parameters, a return type, a local in a function, two locals in start (thorough: also a closure's parameter and return type); every subset of the 8 (10) sites is compiled; plus four surface templates (one of them a three-file project whose annotations name types through one and two namespaces, aliases and from-imports) in which one-line functions and branches with `<!>` / `<=>`, strings spanning lines, comments and non-ASCII text follow annotation sites on the same line (all subsets of their 7 / 4 / 4 sites); non-trivial = base accepted; distinct by base text".into();
     run.bounds = json!({"max_expression_size": if thorough {2} else {1}, "sites": if thorough {"10 for size<=1, 8 for size 2"} else {"8"}});
     run.assumptions = vec![
         "annotations are placed with the types the generator constructed the terms at (type-directed generation), so every annotation is correct".into(),
@@ -427,10 +444,15 @@ pub fn run(run: &mut Run) {
 }
 
 pub fn replay(case: &serde_json::Value) -> Option<(String, String)> {
-    let text = case["files"][MAIN].as_str()?;
     let erased = case["erased"].as_str()?;
-    let a = compile_src(text);
-    let b = compile_src(erased);
+    let mut fa = Files::new();
+    for (k, v) in case["files"].as_object()? {
+        fa.insert(k.clone(), v.as_str()?.to_string());
+    }
+    let mut fb = fa.clone();
+    fb.insert(MAIN.to_string(), erased.to_string());
+    let a = compile(&fa, MAIN, true);
+    let b = compile(&fb, MAIN, true);
     match (&a, &b) {
         (Outcome::Ok(x), Outcome::Ok(y)) if x == y => None,
         (Outcome::Ok(_), Outcome::Ok(_)) => Some(("annotation-changes-lua".into(), String::new())),
